@@ -42,7 +42,8 @@ func faultData() []core.SeriesSpec {
 	}
 	for _, le := range []string{"1", "10", "+Inf"} {
 		base := map[string]float64{"1": 3, "10": 7, "+Inf": 10}[le]
-		d = append(d, gen.Regular(fmt.Sprintf(`h_bucket{l="0",le="%s"}`, le), 0, 30000, 16, base, base))
+		// a label that sorts after `le`: dropping `le` in place shifts it
+		d = append(d, gen.Regular(fmt.Sprintf(`h_bucket{l="0",le="%s",z="1"}`, le), 0, 30000, 16, base, base))
 	}
 	return d
 }
